@@ -103,7 +103,14 @@ def run(cmd, cwd=None, env=None, inp=None, timeout=None):
     return p.returncode, p.stdout
 
 
-def run_lines(cmd, lines, cwd=None, env=None, jobs=None, timeout=3600, prefix=None):
+def _limit_as(nbytes):
+    def f():
+        import resource
+        resource.setrlimit(resource.RLIMIT_AS, (nbytes, nbytes))
+    return f
+
+
+def run_lines(cmd, lines, cwd=None, env=None, jobs=None, timeout=3600, prefix=None, mem_limit=None):
     """Feed `lines` to `cmd` (one result line per input line), in parallel chunks. Returns list of
     output lines; a chunk whose process dies yields 'CRASH' for the lines it did not answer."""
     if not lines:
@@ -111,34 +118,45 @@ def run_lines(cmd, lines, cwd=None, env=None, jobs=None, timeout=3600, prefix=No
     jobs = jobs or min(NCPU, max(1, len(lines) // 200))
     n = len(lines)
     chunks = [(i * n // jobs, (i + 1) * n // jobs) for i in range(jobs)]
-    procs = []
-    for a, b in chunks:
-        data = ("\n".join((prefix or []) + lines[a:b]) + "\n").encode()
-        p = subprocess.Popen(cmd, cwd=cwd, env=env, stdin=subprocess.PIPE, stdout=subprocess.PIPE,
-                             stderr=subprocess.PIPE)
-        procs.append((p, data, a, b))
     out = [None] * n
     import threading
+    pre = prefix or []
 
-    def feed(p, data, a, b):
-        try:
-            so, se = p.communicate(data, timeout=timeout)
-        except subprocess.TimeoutExpired:
-            p.kill()
-            so, se = p.communicate()
-        res = so.decode(errors="replace").split("\n")
-        if res and res[-1] == "":
-            res.pop()
-        res = res[len(prefix or []):]
-        for i in range(a, b):
-            k = i - a
-            out[i] = res[k] if k < len(res) else "CRASH"
-        if p.returncode != 0 and len(res) >= b - a:
-            pass
-        if len(res) < b - a and se:
-            sys.stderr.write(se.decode(errors="replace")[-2000:])
+    def feed(a, b):
+        # a process that dies answers k lines: line k is the culprit ("CRASH"), the rest is re-run in a new process
+        pos = a
+        restarts = 0
+        while pos < b:
+            data = ("\n".join(pre + lines[pos:b]) + "\n").encode()
+            p = subprocess.Popen(cmd, cwd=cwd, env=env, stdin=subprocess.PIPE, stdout=subprocess.PIPE,
+                                 stderr=subprocess.PIPE, preexec_fn=_limit_as(mem_limit) if mem_limit else None)
+            try:
+                so, se = p.communicate(data, timeout=timeout)
+                timed_out = False
+            except subprocess.TimeoutExpired:
+                p.kill()
+                so, se = p.communicate()
+                timed_out = True
+            res = so.decode(errors="replace").split("\n")
+            if res and res[-1] == "":
+                res.pop()
+            res = res[len(pre):]
+            got = min(len(res), b - pos)
+            for k in range(got):
+                out[pos + k] = res[k]
+            pos += got
+            if pos < b:
+                out[pos] = "TIMEOUT" if timed_out else "CRASH"
+                pos += 1
+                restarts += 1
+                if restarts > 50:
+                    for k in range(pos, b):
+                        out[k] = "CRASH"
+                    if se:
+                        sys.stderr.write(se.decode(errors="replace")[-1500:])
+                    break
 
-    ths = [threading.Thread(target=feed, args=pc) for pc in procs]
+    ths = [threading.Thread(target=feed, args=ab) for ab in chunks]
     for t in ths:
         t.start()
     for t in ths:
@@ -183,6 +201,8 @@ class Check:
         os.makedirs(self.workdir, exist_ok=True)
         os.makedirs(EVID, exist_ok=True)
         self.thorough = tier == "thorough"
+        self.impl_mem_limit = 6 << 30   # address-space limit of implementation harness processes (a runaway allocation crashes, not thrashes)
+        self.impl_timeout = 900
 
     # ---------------------------------------------------------------- facts (T1)
     def facts(self, families=None):
@@ -295,7 +315,7 @@ class Check:
     def tie(self, name, lines, impl_cmd, model_cmd, canon=None, jobs=None, nontrivial=None, cwd=None, env=None, prefix=None):
         """Run both sides on `lines`; returns list of (line, impl_out, model_out). `prefix` lines (state set-up,
         e.g. descriptors) are sent first to every process and their answers dropped."""
-        impl = run_lines(impl_cmd, lines, jobs=jobs, cwd=cwd, env=env, prefix=prefix)
+        impl = run_lines(impl_cmd, lines, jobs=jobs, cwd=cwd, env=env, prefix=prefix, mem_limit=self.impl_mem_limit, timeout=self.impl_timeout)
         model = run_lines(model_cmd, lines, jobs=jobs, prefix=prefix)
         res = []
         for l, a, b in zip(lines, impl, model):
